@@ -85,7 +85,7 @@ def setitem(R, base, key, val, lab):
     if base.t.kind == "drec":
         c = R.heap[base.z].content
         R.write_check(base.z)
-        c[name] = R.coerce(R.data(val), fields[name])
+        c[name] = val if fields[name].heap else R.coerce(R.data(val), fields[name])
         if name in optional:
             c["has_" + name] = mk_bool(True)
         return
